@@ -202,3 +202,141 @@ mod tests {
         assert_eq!(h, "$2b$05$CCCCCCCCCCCCCCCCCCCCC.E5YPO9kmyuRGyh0XouQYb4YMJKvyOeW");
     }
 }
+
+// ------------------------------------------------------------------------------------------
+// libgcrypt (second foreign implementation: IDEA, Twofish, Serpent, GOST 28147-89 by OID,
+// plus overlap with libcrypto). ECB, whole blocks.
+pub mod gcry {
+    use std::ffi::{c_char, c_int, c_uint, c_void, CString};
+    use std::sync::Once;
+
+    pub const IDEA: c_int = 1;
+    pub const TDES: c_int = 2;
+    pub const CAST5: c_int = 3;
+    pub const BLOWFISH: c_int = 4;
+    pub const AES128: c_int = 7;
+    pub const AES192: c_int = 8;
+    pub const AES256: c_int = 9;
+    pub const TWOFISH: c_int = 10;
+    pub const DES: c_int = 302;
+    pub const TWOFISH128: c_int = 303;
+    pub const SERPENT128: c_int = 304;
+    pub const SERPENT192: c_int = 305;
+    pub const SERPENT256: c_int = 306;
+    pub const CAMELLIA128: c_int = 310;
+    pub const CAMELLIA192: c_int = 311;
+    pub const CAMELLIA256: c_int = 312;
+    pub const GOST28147: c_int = 315;
+    pub const SM4: c_int = 318;
+
+    #[cfg(not(miri))]
+    #[link(name = "gcrypt")]
+    extern "C" {
+        fn gcry_check_version(req: *const c_char) -> *const c_char;
+        fn gcry_control(cmd: c_int, ...) -> c_uint;
+        fn gcry_cipher_open(h: *mut *mut c_void, algo: c_int, mode: c_int, flags: c_uint) -> c_uint;
+        fn gcry_cipher_close(h: *mut c_void);
+        fn gcry_cipher_setkey(h: *mut c_void, key: *const c_void, len: usize) -> c_uint;
+        fn gcry_cipher_ctl(h: *mut c_void, cmd: c_int, buf: *mut c_void, len: usize) -> c_uint;
+        fn gcry_cipher_encrypt(h: *mut c_void, out: *mut c_void, outsize: usize, inp: *const c_void, inlen: usize) -> c_uint;
+        fn gcry_cipher_decrypt(h: *mut c_void, out: *mut c_void, outsize: usize, inp: *const c_void, inlen: usize) -> c_uint;
+    }
+    static INIT: Once = Once::new();
+    static mut OK: bool = false;
+
+    pub fn available() -> bool {
+        #[cfg(miri)]
+        {
+            return false;
+        }
+        #[cfg(not(miri))]
+        unsafe {
+            INIT.call_once(|| {
+                let v = gcry_check_version(std::ptr::null());
+                if !v.is_null() {
+                    gcry_control(37, 0 as c_int); // GCRYCTL_DISABLE_SECMEM
+                    gcry_control(38, 0 as c_int); // GCRYCTL_INITIALIZATION_FINISHED
+                    OK = true;
+                }
+            });
+            OK
+        }
+    }
+
+    /// ECB over whole blocks; `sbox_oid` selects a GOST 28147-89 parameter set.
+    pub fn ecb(algo: c_int, key: &[u8], enc: bool, data: &[u8], sbox_oid: Option<&str>) -> Option<Vec<u8>> {
+        #[cfg(miri)]
+        {
+            let _ = (algo, key, enc, data, sbox_oid);
+            return None;
+        }
+        #[cfg(not(miri))]
+        unsafe {
+            if !available() {
+                return None;
+            }
+            let mut h: *mut c_void = std::ptr::null_mut();
+            if gcry_cipher_open(&mut h, algo, 1, 0) != 0 || h.is_null() {
+                return None;
+            }
+            let mut ok = true;
+            if let Some(oid) = sbox_oid {
+                let c = CString::new(oid).ok()?;
+                // GCRYCTL_SET_SBOX = 73
+                ok &= gcry_cipher_ctl(h, 73, c.as_ptr() as *mut c_void, 0) == 0;
+            }
+            ok &= gcry_cipher_setkey(h, key.as_ptr() as *const c_void, key.len()) == 0;
+            let mut out = vec![0u8; data.len()];
+            if ok {
+                let r = if enc {
+                    gcry_cipher_encrypt(h, out.as_mut_ptr() as *mut c_void, out.len(), data.as_ptr() as *const c_void, data.len())
+                } else {
+                    gcry_cipher_decrypt(h, out.as_mut_ptr() as *mut c_void, out.len(), data.as_ptr() as *const c_void, data.len())
+                };
+                ok &= r == 0;
+            }
+            gcry_cipher_close(h);
+            if ok {
+                Some(out)
+            } else {
+                None
+            }
+        }
+    }
+
+    #[cfg(test)]
+    mod tests {
+        use super::*;
+        fn hx(s: &str) -> Vec<u8> {
+            (0..s.len() / 2).map(|i| u8::from_str_radix(&s[2 * i..2 * i + 2], 16).unwrap()).collect()
+        }
+        #[test]
+        fn gcrypt_vectors() {
+            assert!(available());
+            let k = hx("000102030405060708090a0b0c0d0e0f");
+            assert_eq!(ecb(AES128, &k, true, &hx("00112233445566778899aabbccddeeff"), None).unwrap(), hx("69c4e0d86a7b0430d8cdb78070b4c55a"));
+            // Twofish paper KAT, 128-bit zero key
+            assert_eq!(ecb(TWOFISH128, &[0u8; 16], true, &[0u8; 16], None).unwrap(), hx("9f589f5cf6122c32b6bfec2f2ae8c35a"));
+            // IDEA classic vector
+            assert_eq!(ecb(IDEA, &hx("00010002000300040005000600070008"), true, &hx("0000000100020003"), None).unwrap(), hx("11fbed2b01986de5"));
+            // GOST R 34.12-2015 Magma example with the tc26-Z parameter set
+            let gk = hx("ffeeddccbbaa99887766554433221100f0f1f2f3f4f5f6f7f8f9fafbfcfdfeff");
+            let r = ecb(GOST28147, &gk, true, &hx("fedcba9876543210"), Some("1.2.643.7.1.2.5.1.1"));
+            println!("gost tc26: {:x?}", r);
+            // Magma (big-endian words) through libgcrypt's little-endian GOST 28147-89: byte-swap each key
+            // word, reverse the block, reverse the result
+            let kk: Vec<u8> = gk.chunks(4).flat_map(|w| w.iter().rev().cloned().collect::<Vec<u8>>()).collect();
+            let blk: Vec<u8> = hx("fedcba9876543210").into_iter().rev().collect();
+            let mut r2 = ecb(GOST28147, &kk, true, &blk, Some("1.2.643.7.1.2.5.1.1")).unwrap();
+            r2.reverse();
+            assert_eq!(r2, hx("4ee901e5c2d8ca3d"));
+            for a in [SERPENT128, SERPENT192, SERPENT256, TWOFISH, CAST5, BLOWFISH, SM4, CAMELLIA192, DES, TDES] {
+                let kl = match a { SERPENT128 => 16, SERPENT192 => 24, SERPENT256 | TWOFISH => 32, CAST5 | BLOWFISH | SM4 => 16, CAMELLIA192 => 24, DES => 8, _ => 24 };
+                let key: Vec<u8> = (1..=kl as u8).collect();
+                let bl = if matches!(a, CAST5 | BLOWFISH | DES | TDES) { 8 } else { 16 };
+                let c = ecb(a, &key, true, &vec![7u8; bl], None).unwrap_or_else(|| panic!("algo {}", a));
+                assert_eq!(ecb(a, &key, false, &c, None).unwrap(), vec![7u8; bl]);
+            }
+        }
+    }
+}
